@@ -34,7 +34,7 @@ from harness.c11 import Batch, expect_flags
 
 ELEMENTS = ["C", "N", "O", "H", "F", "S", "Cl", "P", "Si", "Br"]
 BTYPES = ["Single", "Double", "Aromatic", "Triple"]
-NEWDATA = "Single/Unknown/1.0"
+NEWDATA = "Single/Unknown/1.0/-/-"
 FRESH: list = []     # optimize_rotation joins to be repeated in fresh interpreters
 
 AXES = [(1.0, 0.0, 0.0), (-1.0, 0.0, 0.0), (0.0, 1.0, 0.0), (0.0, -1.0, 0.0), (0.0, 0.0, 1.0), (0.0, 0.0, -1.0)]
@@ -54,7 +54,7 @@ def gen_fragment(rng, name, n_aps=1, nmin=1, nmax=7, parallel_to=None, ap_labels
     coords = [list(map(float, p)) for p in G.random_coords(rng, n)]
     elements = [rng.choice(ELEMENTS) for _ in range(n)]
     is_ap = [False] * n
-    btypes = [rng.choice(BTYPES) if rng.chance(1, 3) else "Single" for _ in edges]
+    btypes = [edge_spec(rng) for _ in edges]
     for j in range(n_aps):
         for _ in range(200):
             host = rng.below(n)
@@ -96,6 +96,8 @@ def gen_fragment(rng, name, n_aps=1, nmin=1, nmax=7, parallel_to=None, ap_labels
         "edges": [[inv[a], inv[b], t] for (a, b), t in zip(edges, btypes)],
         "charge": rng.range(-2, 2),
         "mult": rng.range(1, 3),
+        # some atoms carry attributes, most carry an (initially) EMPTY dict
+        "attribs": {str(i): rng.choice([{"src": "gen"}, {"n": i, "path": [1, 2]}]) for i, o in enumerate(perm) if not is_ap[o] and rng.chance(1, 4)},
     }
 
 
@@ -107,9 +109,13 @@ def build(ml, fj):
             atoms.append(Atom(Element.Unknown, label=lbl, atype=AtomType.AttachmentPoint))
         else:
             atoms.append(Atom(Element[el], label=lbl))
+    for i, at in (fj.get("attribs") or {}).items():
+        atoms[int(i)].attrib = json.loads(json.dumps(at))
     m = ml.Molecule(atoms, name=fj["name"], copy_atoms=False, charge=fj["charge"], mult=fj["mult"])
+    from molli.chem import BondStereo
     for a, b, t in fj["edges"]:
-        m.append_bond(Bond(atoms[a], atoms[b], btype=BondType[t]))
+        bt, st, fo, lb, at = parse_edge(t)
+        m.append_bond(Bond(atoms[a], atoms[b], label=lb, btype=BondType[bt], stereo=BondStereo[st], f_order=fo, attrib=at))
     m.coords = np.array(fj["coords"], dtype=float)
     return m
 
@@ -121,14 +127,58 @@ def _ename(enum_cls, v) -> str:
         return enum_cls(v).name
 
 
+def _attrhex(d) -> str:
+    """an attribute dict as one token (no blanks, commas, colons): hex of its canonical JSON; `-` when empty"""
+    if not d:
+        return "-"
+    return json.dumps(d, sort_keys=True, default=str).encode().hex()
+
+
+def _lbl(x) -> str:
+    return "-" if x is None else str(x)
+
+
 def atom_tok(a) -> str:
     from molli.chem import Element, AtomType
-    return f"{_ename(Element, a.element)}/{a.label}/{_ename(AtomType, a.atype)}"
+    return f"{_ename(Element, a.element)}/{a.label}/{_ename(AtomType, a.atype)}/{_attrhex(a.attrib)}"
 
 
 def bond_tok(b) -> str:
+    """EVERY field of a bond: type, stereo, fractional order, label, attributes"""
     from molli.chem import BondType, BondStereo
-    return f"{_ename(BondType, b.btype)}/{_ename(BondStereo, b.stereo)}/{float(b.f_order)!r}"
+    return f"{_ename(BondType, b.btype)}/{_ename(BondStereo, b.stereo)}/{float(b.f_order)!r}/{_lbl(b.label)}/{_attrhex(b.attrib)}"
+
+
+def edge_spec(rng) -> str:
+    """bond description of a generated fragment: `BType;Stereo;f_order;label;attrib-json-hex` with non-default values in every field"""
+    r = rng.below(4)
+    if r == 0:
+        return "Single"
+    bt = rng.choice(["Single", "Double", "Aromatic", "Triple", "FractionalOrder", "Amide", "Dummy"])
+    fo = rng.choice([1.5, 0.5, 2.5, 1.25]) if bt in ("FractionalOrder", "Aromatic") or rng.chance(1, 3) else 1.0
+    from molli.chem import BondStereo
+    st = rng.choice([nm for nm in BondStereo.__members__ if BondStereo[nm].name == nm])      # canonical member names only (Cis/Trans are aliases)
+    lb = rng.choice(["-", "b1", "ring", "x9"])
+    at = rng.choice([{}, {"order_src": "fit"}, {"w": 3, "tags": ["a", "b"]}])
+    return f"{bt};{st};{fo!r};{lb};{_attrhex(at)}"
+
+
+def parse_edge(t: str):
+    if ";" not in t:
+        return t, "Unknown", 1.0, None, {}
+    bt, st, fo, lb, ah = t.split(";")
+    return bt, st, float(fo), (None if lb == "-" else lb), ({} if ah == "-" else json.loads(bytes.fromhex(ah).decode()))
+
+
+def edge_tok(t: str) -> str:
+    """the canonical bond token (see bond_tok) a fragment's edge description stands for"""
+    bt, st, fo, lb, at = parse_edge(t)
+    return f"{bt}/{st}/{float(fo)!r}/{_lbl(lb)}/{_attrhex(at)}"
+
+
+def atom_tok_json(f, i) -> str:
+    at = (f.get("attribs") or {}).get(str(i)) or {}
+    return f"{f['elements'][i]}/{f['labels'][i]}/Regular/{_attrhex(at)}"
 
 
 def frag_tokens(m) -> str:
@@ -169,7 +219,7 @@ def canon_model(out: str) -> str:
 
 def label_graph(m):
     """model-free view of a molecule: {label: (element, atype)}, {frozenset(labels): bond token}"""
-    nodes = {a.label: (a.element.name, a.atype.name) for a in m.atoms}
+    nodes = {a.label: (a.element.name, a.atype.name, _attrhex(a.attrib)) for a in m.atoms}
     edges = {}
     for b in m.bonds:
         edges[frozenset((b.a1.label, b.a2.label))] = bond_tok(b)
@@ -177,11 +227,52 @@ def label_graph(m):
 
 
 def snapshot(m):
+    """everything observable of a structure: every field of every atom and bond (attribute dicts by value), coordinates,
+    partial charges, charge, multiplicity, name"""
+    ac = getattr(m, "atomic_charges", None)
     return (
-        tuple((id(a), a.element.name, a.label, a.atype.name, a.isotope, a.formal_charge, a.formal_spin) for a in m.atoms),
-        tuple((id(b.a1), id(b.a2), b.btype.name, b.stereo.name, float(b.f_order)) for b in m.bonds),
-        np.array(m.coords).tobytes(), getattr(m, "charge", None), getattr(m, "mult", None), getattr(m, "name", None),
+        tuple((id(a), a.element.name, a.label, a.atype.name, a.isotope, a.formal_charge, a.formal_spin, str(a.stereo), str(a.geom),
+               json.dumps(a.attrib, sort_keys=True, default=str)) for a in m.atoms),
+        tuple((id(b.a1), id(b.a2), b.btype.name, b.stereo.name, float(b.f_order), b.label, json.dumps(b.attrib, sort_keys=True, default=str))
+              for b in m.bonds),
+        np.array(m.coords).tobytes(), None if ac is None else np.array(ac, dtype=float).tobytes(),
+        getattr(m, "charge", None), getattr(m, "mult", None), getattr(m, "name", None),
     )
+
+
+def scribble(m, mark):
+    """write into every mutable part of a structure: attribute dicts of all atoms and bonds (also the initially empty ones),
+    labels, isotopes, bond fields, coordinates, partial charges, charge, name"""
+    from molli.chem import BondType
+    for i, a in enumerate(m.atoms):
+        a.attrib[mark] = i
+        for v in a.attrib.values():
+            if isinstance(v, list):
+                v.append(mark)
+        a.label = f"{mark}{i}"
+        a.isotope = 13
+        a.formal_charge = 1
+    for i, b in enumerate(m.bonds):
+        b.attrib[mark] = i
+        for v in b.attrib.values():
+            if isinstance(v, list):
+                v.append(mark)
+        b.label = f"{mark}b{i}"
+        b.f_order = 3.25
+        b.btype = BondType.H_Donor
+    try:
+        m.coords = np.array(m.coords) + 1.0
+    except Exception:  # noqa: BLE001
+        pass
+    try:
+        m.atomic_charges = np.array(m.atomic_charges) + 0.5
+    except Exception:  # noqa: BLE001
+        pass
+    for attr, val in (("charge", 7), ("name", mark)):
+        try:
+            setattr(m, attr, val)
+        except Exception:  # noqa: BLE001
+            pass
 
 
 def neighbour_of(fj, i):
@@ -279,20 +370,79 @@ def make_operand(ml, rng, fj, kind):
         "coords": [[c + d for c, d in zip(src[k]["coords"][i], shift[k])] for k, i in order],
         "edges": [[pos[("f", a)], pos[("f", b)], t] for a, b, t in fj["edges"]] + [[pos[("e", a)], pos[("e", b)], t] for a, b, t in extra["edges"]],
         "charge": 0, "mult": 1,
+        "attribs": {**{str(pos[("f", int(i))]): v for i, v in (fj.get("attribs") or {}).items()},
+                    **{str(pos[("e", int(i))]): v for i, v in (extra.get("attribs") or {}).items()}},
     }
     host = build(ml, bigj)
     view = host.substructure([pos[("f", i)] for i in range(nf)])
     return view, [host], [host]
 
 
+def json_of(m, name):
+    """the fragment description of a structure AS IT IS NOW (atoms, bonds with every field, coordinates)"""
+    idx = {id(a): i for i, a in enumerate(m.atoms)}
+    edges = []
+    for b in m.bonds:
+        edges.append([idx[id(b.a1)], idx[id(b.a2)],
+                      f"{b.btype.name};{b.stereo.name};{float(b.f_order)!r};{_lbl(b.label)};{_attrhex(b.attrib)}"])
+    return {"name": name, "elements": [a.element.name for a in m.atoms], "labels": [a.label for a in m.atoms],
+            "ap": [i for i, a in enumerate(m.atoms) if a.atype.name == "AttachmentPoint"],
+            "coords": np.array(m.coords, dtype=float).tolist(), "edges": edges, "charge": int(m.charge), "mult": int(m.mult),
+            "attribs": {str(i): json.loads(json.dumps(a.attrib)) for i, a in enumerate(m.atoms) if a.attrib}}
+
+
+def rejoin_after_inplace_change(ctx, B, ml, A, Bm, fa, fb, args, variants):
+    """The same two objects are joined again after one or both were changed IN PLACE: rigid motion, an internal change of
+    geometry that turns the attachment vector, the attachment point re-connected to another atom.  The product must be the
+    join of the operands as they are at THIS call (all oracles and the model, via join_case on the very same objects)."""
+    from molli.chem import Bond
+    rng = ctx.rng
+    from harness.c11 import rational_rotation
+    changed = []
+    for m, fj in ((A, fa), (Bm, fb)):
+        if not rng.chance(2, 3):
+            continue
+        n = m.n_atoms
+        ap = fj["ap"][0]
+        kind = rng.choice(["rigid", "bend", "reconnect"])
+        if kind == "rigid":
+            m.transform(rational_rotation(rng)[1])
+            m.translate(np.array([rng.range(-24, 24) / 8 for _ in range(3)]))
+        elif kind == "bend":
+            # the attachment point (and a few more atoms) are shifted: the attachment vector turns and changes length
+            sel = sorted({ap} | set(rng.shuffle(list(range(n)))[:rng.range(0, max(0, n - 2))]) - {neighbour_of(fj, ap)})
+            m.substructure(sel).translate(np.array([rng.choice([-1, 1]) * rng.range(3, 9) / 8 for _ in range(3)]))
+        else:
+            host = neighbour_of(fj, ap)
+            cands = [i for i in range(n) if i not in (ap, host) and np.linalg.norm(np.array(m.coords[i]) - np.array(m.coords[ap])) > 0.4]
+            if not cands:
+                kind = "rigid"
+                m.translate(np.array([0.5, -0.25, 1.0]))
+            else:
+                new = rng.choice(cands)
+                old_bond = [b for b in m.bonds if m.atoms[ap] in b][0]
+                m.del_bond(old_bond)
+                m.append_bond(Bond(m.atoms[new], m.atoms[ap]))
+        changed.append(kind)
+        ctx.count(f"join.rejoin-after-inplace.{kind}")
+    if not changed:
+        return
+    fa2, fb2 = json_of(A, fa["name"]), json_of(Bm, fb["name"])
+    args2 = dict(args, operandA="plain", operandB="plain", pose=args["pose"] + "+changed-in-place")
+    join_case(ctx, B, ml, fa2, fb2, args2, variants, prebuilt=(A, Bm), depth=1)
+
+
 # ------------------------------------------------------------------------------------------
 # one join case
 # ------------------------------------------------------------------------------------------
-def join_case(ctx, B, ml, fa, fb, args, variants, sample=False):
+def join_case(ctx, B, ml, fa, fb, args, variants, sample=False, prebuilt=None, depth=0):
     rng = ctx.rng
     opA, opB = args.get("operandA", "plain"), args.get("operandB", "plain")
-    A, keepA_, hostsA = make_operand(ml, rng, fa, opA)
-    Bm, keepB_, hostsB = make_operand(ml, rng, fb, opB)
+    if prebuilt is not None:
+        (A, Bm), keepA_, keepB_, hostsA, hostsB = prebuilt, [], [], [], []      # the SAME objects as in an earlier join, changed in place since
+    else:
+        A, keepA_, hostsA = make_operand(ml, rng, fa, opA)
+        Bm, keepB_, hostsB = make_operand(ml, rng, fb, opB)
     hosts = hostsA + hostsB
     snapH = [snapshot(h) for h in hosts]
     ctx.count(f"join.operandA={opA}")
@@ -359,12 +509,12 @@ def join_case(ctx, B, ml, fa, fb, args, variants, sample=False):
     for f in (fa, fb):
         for i, (el, lbl) in enumerate(zip(f["elements"], f["labels"])):
             if i not in f["ap"]:
-                expn[lbl] = (el, "Regular")
+                expn[lbl] = (el, "Regular", _attrhex((f.get("attribs") or {}).get(str(i)) or {}))
     expe = {}
     for f in (fa, fb):
         for a, b, t in f["edges"]:
             if a not in f["ap"] and b not in f["ap"]:
-                expe[frozenset((f["labels"][a], f["labels"][b]))] = f"{t}/Unknown/1.0"
+                expe[frozenset((f["labels"][a], f["labels"][b]))] = edge_tok(t)
     expe[frozenset((fa["labels"][n1], fb["labels"][n2]))] = NEWDATA
     if nodes != expn or res.n_atoms != nA + nB - 2:
         ctx.violation("C12:join-wrong-atoms", f"product has atoms {sorted(nodes)} expected {sorted(expn)}", tag)
@@ -419,8 +569,26 @@ def join_case(ctx, B, ml, fa, fb, args, variants, sample=False):
         sn = float(np.linalg.norm(np.cross(q - p, v1)) / (bl * np.linalg.norm(v1))) if bl > 0 else 1.0
         if sn > 1e-8 or np.dot(q - p, v1) <= 0:
             ctx.violation("C12:join-wrong-bond-direction", f"new bond not along A's attachment vector (sin = {sn:.3g}, dot = {float(np.dot(q - p, v1)):.3g})", tag)
+        # B must face A: the image of B's own attachment point lies on the bond axis, behind B's bonded atom
+        # (theorem join_fragment_faces).  Its image is recovered from the rigid motion of B's remaining atoms when these fix it.
+        if d_ok and v_ok and len(keepB) >= 3:
+            P0, P1 = cbm[keepB], gotB
+            c0, c1 = P0.mean(axis=0), P1.mean(axis=0)
+            if np.linalg.svd(P0 - c0, compute_uv=False)[1] > 0.3:          # not collinear: the rotation is determined
+                Rfit, rfit = G.kabsch(P0 - c0, P1 - c1)
+                if rfit < 1e-7:
+                    img = (cbm[i2] - c0) @ Rfit + c1
+                    w = img - q
+                    cs = float(np.dot(w, -(q - p)) / (np.linalg.norm(w) * np.linalg.norm(q - p))) if np.linalg.norm(w) > 0 and bl > 0 else -1.0
+                    if cs < 1 - 1e-9:
+                        ctx.violation("C12:join-second-fragment-not-facing",
+                                      f"B's own attachment direction is not turned onto the new bond (cos = {cs:.9f} instead of 1): "
+                                      "B is joined in a wrong orientation", tag)
+                    ctx.count("join.facing-checked")
         # ---------- geometry: exact spec predicates in Lean on the returned floats ----------
-        B.add(f"spec {nA} {ftoks(ca)} {nB} {ftoks(cbm)} {i1} {i2} {n1} {n2} {ftoks(coords)} {fbits(d)} 1/100000000",
+        # nearly (anti)parallel attachment vectors: the code divides by 1 + c down to 1e-6, rounding is amplified accordingly
+        spec_tol = "1/100000" if args["pose"].startswith("near") else "1/100000000"
+        B.add(f"spec {nA} {ftoks(ca)} {nB} {ftoks(cbm)} {i1} {i2} {n1} {n2} {ftoks(coords)} {fbits(d)} {spec_tol}",
               expect_flags(ctx, "join", tag, SPEC_KINDS))
         # ---------- geometry: the model over exact rationals on the floats the code saw ----------
         v2 = cbm[i2] - cbm[n2]
@@ -461,13 +629,24 @@ def join_case(ctx, B, ml, fa, fb, args, variants, sample=False):
                   f"1/1000000 {fbits(nfl)} {ftoks(rv)} {kreq}", cb_geo)
     # ---------- the product is separate from its sources ----------
     try:
-        res.coords = np.array(res.coords) + 1.0
-        res.atoms[0].label = "mutated"
-        res.charge = 7
-    except Exception:
-        pass
-    if snapshot(A) != snapA or snapshot(Bm) != snapB:
-        ctx.violation("C12:join-mutates-source", "editing the product changed A or B", tag)
+        scribble(res, "wr")
+    except Exception as e:  # noqa: BLE001
+        ctx.notes.append(f"could not write into every part of a product: {type(e).__name__}: {e}")
+    if snapshot(A) != snapA or snapshot(Bm) != snapB or [snapshot(h) for h in hosts] != snapH:
+        ctx.violation("C12:join-mutates-source", "writing into the product (atom / bond attributes incl. initially empty ones, labels, fields, "
+                      "coordinates, charges) changed A or B: the product shares mutable state with its sources", tag)
+    # ---------- join, change an operand IN PLACE, join the same objects again ----------
+    if depth == 0 and opA != "view" and opB != "view" and rng.chance(1, 2):
+        rejoin_after_inplace_change(ctx, B, ml, A, Bm, fa, fb, args, variants)
+    # ---------- … and the other way round: writing into A and B must not show in a product ----------
+    snapP = snapshot(res2)
+    try:
+        scribble(A, "wa")
+        scribble(Bm, "wb")
+    except Exception as e:  # noqa: BLE001
+        ctx.notes.append(f"could not write into every part of an operand: {type(e).__name__}: {e}")
+    if snapshot(res2) != snapP:
+        ctx.violation("C12:join-mutates-source", "writing into A / B after the join changed the product: they share mutable state", tag)
     nontriv = (nA > 2 or nB > 2)
     ctx.case(["join", fa, fb, args], nontrivial=nontriv)
     if sample:
@@ -513,10 +692,10 @@ def expected_product_graph(core_j, aps, subs_j):
     for f in [core_j] + list(subs_j):
         for i, (el, lbl) in enumerate(zip(f["elements"], f["labels"])):
             if i not in f["ap"]:
-                nodes[lbl] = (el, "Regular")
+                nodes[lbl] = (el, "Regular", _attrhex((f.get("attribs") or {}).get(str(i)) or {}))
         for a, b, t in f["edges"]:
             if a not in f["ap"] and b not in f["ap"]:
-                edges[frozenset((f["labels"][a], f["labels"][b]))] = f"{t}/Unknown/1.0"
+                edges[frozenset((f["labels"][a], f["labels"][b]))] = edge_tok(t)
     for ap, s in zip(aps, subs_j):
         edges[frozenset((core_j["labels"][neighbour_of(core_j, ap)], s["labels"][neighbour_of(s, s["ap"][0])]))] = NEWDATA
     return nodes, edges
@@ -582,7 +761,7 @@ def expected_product_indexed(core_j, aps, subs_j):
         for i, (el, lbl) in enumerate(zip(f["elements"], f["labels"])):
             if i not in f["ap"]:
                 pos[(fi, i)] = len(toks)
-                toks.append(f"{el}/{lbl}/Regular")
+                toks.append(atom_tok_json(f, i))
     bonds = []
     for fi, f in enumerate(frs):
         for a, b, t in f["edges"]:
@@ -609,14 +788,14 @@ def multigraph_of(m):
 def expected_multigraph(core_j, aps, subs_j):
     from collections import Counter
     nodes, edges = Counter(), Counter()
-    tok = lambda f, i: f"{f['elements'][i]}/{f['labels'][i]}/Regular"
+    tok = atom_tok_json
     for f in [core_j] + list(subs_j):
         for i in range(len(f["labels"])):
             if i not in f["ap"]:
                 nodes[tok(f, i)] += 1
         for a, b, t in f["edges"]:
             if a not in f["ap"] and b not in f["ap"]:
-                edges[(tuple(sorted((tok(f, a), tok(f, b)))), f"{t}/Unknown/1.0")] += 1
+                edges[(tuple(sorted((tok(f, a), tok(f, b)))), edge_tok(t))] += 1
     for ap, sj in zip(aps, subs_j):
         edges[(tuple(sorted((tok(core_j, neighbour_of(core_j, ap)), tok(sj, neighbour_of(sj, sj["ap"][0]))))), NEWDATA)] += 1
     return nodes, edges, core_j["charge"] + sum(sj["charge"] for sj in subs_j), core_j["mult"] + sum(sj["mult"] - 1 for sj in subs_j)
@@ -849,7 +1028,9 @@ def run(ctx):
                 "on a 1/8 Å grid; requested length ∈ {None, 0.75, 1, 1.5, 2.25, 3}; optimize_rotation on/off; charge override ∈ {None, 0, 1, −2}; "
                 "mult override ∈ {None, 0, 1, 2, 3}; attachment vectors in general position, exactly parallel, exactly antiparallel (also with A's vector exactly along each of ±x, ±y, ±z) and tilted off those by 1e-2…1e-7 rad; operands: freshly built molecules, molecules whose atom objects were also listed (re-ordered, uncopied) by another live or dropped "
                 "Promolecule/Molecule, Substructure views (permuted, non-leading subsets of a bigger structure) as A and as B; every call "
-                "made twice under different global numpy RNG states; every optimize_rotation join repeated after unrelated joins of a larger and a smaller "
+                "made twice under different global numpy RNG states; half of the joins are repeated ON THE SAME OBJECTS after one or both operands were changed in place "
+                "(rigid motion, attachment vector bent, attachment point re-connected); after every join every mutable part of the product is written to (and then of A and B) "
+                "and the other side must be bit-identical; bonds carry non-default type / stereo / fractional order / label / attributes, some atoms attributes; every optimize_rotation join repeated after unrelated joins of a larger and a smaller "
                 "fragment, and compared bit-wise with the same join in fresh interpreters (reversed order; alone). combine: cores with 1–3 attachment points, attachment indices in ascending "
                 "order (as `core.attachment_points`) and in every other order (as with `-a` labels), through the real `_ml_assemble`; the whole command `molli_main` on core libraries of 2–3 cores with "
                 "DIFFERENT attachment layouts × 2–3 substituents, every -m mode (same, permutns, combns, combns_repl) × attachment points found by type, by one "
@@ -878,7 +1059,7 @@ def run(ctx):
             combine_case(ctx, B, ml, cb, r["core"], r["aps"], r["subs"], variants)
             ctx.count("corpus.combine")
     q = ctx.quick()
-    njoin = 250 if q else 9000
+    njoin = 250 if q else 7000
     for i in range(njoin):
         ctx.check_deadline()
         pose = rng.weighted([("general", 6), ("parallel", 2), ("antiparallel", 2), ("near-parallel", 2), ("near-antiparallel", 2),
